@@ -53,7 +53,13 @@ def run(ck: Checker, prog: Program, tier: str):
     ck.guard(_helpers, ck, prog)
     ck.guard(S.check_accessor_purity, ck, prog, cls, "C11.R3", 15)
     # `amplitude` is the raw data accessor (list of per-azimuth arrays), not a statistic
-    ck.guard(S.check_masked_reads, ck, prog, cls, "C11.R3", floor=2, exclude=("amplitude",))
+    ck.guard(S.check_masked_reads, ck, prog, cls, "C11.R3", floor=1, exclude=("amplitude",))
+    # per-azimuth statistics (mean_curve_by_azimuth, single-azimuth == traditional) are those of HvsrTraditional
+    from . import c05
+    trad = prog.cls("HvsrTraditional")
+    with ck.borrow(c05, "C11.R2+"):
+        ck.guard(S.check_accessor_table, ck, prog, trad, "C05.R3", c05.TABLE, c05.GUARDS)
+        ck.guard(S.check_masked_reads, ck, prog, trad, "C05.R1", floor=4)
 
 
 def _helpers(ck: Checker, prog: Program):
@@ -89,45 +95,80 @@ def _weights(ck: Checker, prog: Program, cls):
     else:
         ck.violation("C11.R1", fq, "number of azimuths", f"the azimuth count used for the weights is {naz[1] if naz else None}, "
                      f"not the number of azimuths of the object (len(self.azimuths))", loc=m.loc())
+    # per-azimuth (source of the iteration, weight, repetitions): loop + extend, or comprehensions + flatten
+    src = W = Rp = None
+    hv = None
+    site = m.node
     loops = [st for st in m.node.body if isinstance(st, ast.For)]
-    if len(loops) != 1:
-        raise AnalysisError(f"{fq}: expected one loop over self.hvsrs")
-    lp = loops[0]
-    if unparse(lp.iter) != "self.hvsrs" or not isinstance(lp.target, ast.Name) or \
-            any(isinstance(x, (ast.Break, ast.Continue, ast.If)) for x in ast.walk(lp)):
-        ck.violation("C11.R1", fq, norm_key(lp), "weights are not produced for every azimuth in the order of self.hvsrs", loc=m.loc(lp))
+    rets = S.returns_of(m)
+    if len(loops) == 1:
+        lp = loops[0]
+        site = lp
+        if not isinstance(lp.target, ast.Name) or any(isinstance(x, (ast.Break, ast.Continue, ast.If)) for x in ast.walk(lp)):
+            ck.violation("C11.R1", fq, norm_key(lp), "weights are not produced for every azimuth in the order of self.hvsrs", loc=m.loc(lp))
+            return
+        hv = lp.target.id
+        TL = Translator(env=dict(T.env))
+        forward_substitute([st for st in lp.body if isinstance(st, ast.Assign)], TL)
+        ext = [c for c in calls_in(lp) if call_name(c) == "extend" and isinstance(c.func.value, ast.Name)]
+        if len(ext) != 1:
+            raise AnalysisError(f"{fq}: expected <list>.extend([...]*n) in the loop")
+        lst_name = ext[0].func.value.id
+        val = TL.tr(ext[0].args[0])
+        src = T.tr(lp.iter)
+        ret_ok = len(rets) == 1 and isinstance(rets[0].value, ast.Call) and call_name(rets[0].value) in ("array", "asarray") \
+            and rets[0].value.args and unparse(rets[0].value.args[0]) == lst_name
     else:
-        ck.ok("C11.R1", fq, norm_key(lp), nontrivial=False)
-    hv = lp.target.id if isinstance(lp.target, ast.Name) else "hvsr"
-    TL = Translator(env=dict(T.env))
-    forward_substitute([st for st in lp.body if isinstance(st, ast.Assign)], TL)
-    ext = [c for c in calls_in(lp) if call_name(c) == "extend" and unparse(c.func.value) == "weights"]
-    if len(ext) != 1:
-        raise AnalysisError(f"{fq}: expected weights.extend([...]*n)")
-    a = ext[0].args[0]
+        if len(rets) != 1:
+            raise AnalysisError(f"{fq}: expected one return")
+        e = rets[0].value
+        if isinstance(e, ast.Call) and call_name(e) in ("array", "asarray") and e.args:
+            e = e.args[0]
+        if not (isinstance(e, ast.Call) and call_name(e) in ("_flatten_list", "concatenate", "hstack") and e.args):
+            raise AnalysisError(f"{fq}: construction of the weights not recognised")
+        e = e.args[0]
+        defs = {st.targets[0].id: st.value for st in m.node.body if isinstance(st, ast.Assign) and isinstance(st.targets[0], ast.Name)}
+        if isinstance(e, ast.Name) and e.id in defs:
+            e = defs[e.id]
+        if not (isinstance(e, ast.ListComp) and len(e.generators) == 1 and not e.generators[0].ifs and isinstance(e.generators[0].target, ast.Name)):
+            raise AnalysisError(f"{fq}: construction of the weights not recognised")
+        g = e.generators[0]
+        it = g.iter
+        if isinstance(it, ast.Name) and it.id in defs:
+            it = defs[it.id]
+        TL = Translator(env=dict(T.env))
+        if isinstance(it, ast.ListComp) and len(it.generators) == 1 and not it.generators[0].ifs and isinstance(it.generators[0].target, ast.Name):
+            hv = it.generators[0].target.id
+            src = T.tr(it.generators[0].iter)
+            TL.env[g.target.id] = TL.tr(it.elt)
+        else:
+            hv = g.target.id
+            src = T.tr(it)
+        val = TL.tr(e.elt)
+        ret_ok = True
+    if src != T.sym("self.hvsrs"):
+        ck.violation("C11.R1", fq, "iteration over the azimuths", f"weights are produced by iterating over {src}, not over self.hvsrs in order", loc=m.loc(site))
+    else:
+        ck.ok("C11.R1", fq, "one block of weights per azimuth, in the order of self.hvsrs", nontrivial=False)
     nvalid_want = sp.Function("int")(sp.Function("sum")(TL.sym(f"{hv}.valid_peak_boolean_mask")))
     nvalid_alt = sp.Function("sum")(TL.sym(f"{hv}.valid_peak_boolean_mask"))
     good = False
-    detail = ""
-    if isinstance(a, ast.BinOp) and isinstance(a.op, ast.Mult):
-        lst, rep = (a.left, a.right) if isinstance(a.left, ast.List) else (a.right, a.left)
-        if isinstance(lst, ast.List) and len(lst.elts) == 1:
-            w = TL.tr(lst.elts[0])
-            r = TL.tr(rep)
-            naz_v = naz[1] if naz else sp.Symbol("?")
-            for nv in (nvalid_want, nvalid_alt):
-                if equal(w, 1 / (naz_v * nv)) and equal(r, nv):
-                    good = True
-            detail = f"weight {w} repeated {r} times"
+    detail = str(val)
+    if getattr(val, "func", None) == sp.Function("repeat") and isinstance(val.args[0], sp.Tuple) and len(val.args[0]) == 1:
+        w, r = val.args[0][0], val.args[1]
+        naz_v = naz[1] if naz else sp.Symbol("?")
+        for nv in (nvalid_want, nvalid_alt):
+            if equal(w, 1 / (naz_v * nv)) and equal(r, nv):
+                good = True
+        detail = f"weight {w} repeated {r} times"
     if good:
-        ck.ok("C11.R1", fq, norm_key(ext[0], 100), detail=detail)
+        ck.ok("C11.R1", fq, "per azimuth: 1/(n_azimuths*n_valid) repeated n_valid times", detail=detail)
     else:
-        ck.violation("C11.R1", fq, norm_key(ext[0], 100),
+        ck.violation("C11.R1", fq, "per-azimuth weights",
                      f"per-azimuth weights are not 1/(n_azimuths*n_valid) repeated n_valid times with n_valid = sum(valid_peak_boolean_mask) ({detail})",
-                     loc=m.loc(ext[0]))
-    rets = S.returns_of(m)
-    if len(rets) == 1 and unparse(rets[0].value) in ("np.array(weights)", "np.asarray(weights)", "numpy.array(weights)"):
-        ck.ok("C11.R1", fq, norm_key(rets[0]), nontrivial=False)
+                     loc=m.loc(site))
+    if ret_ok:
+        ck.ok("C11.R1", fq, "the weights are returned as built", nontrivial=False)
     else:
         ck.violation("C11.R1", fq, "return", "the weight list is not returned as built", loc=m.loc())
 
